@@ -1,11 +1,11 @@
 /-
 C09 / C10 — the generic combinator machinery `yaclib::when::When` with its strategies.
 
-Written from /repo (as it is, including defect D2):
+Written from /repo (as it is; defect D2 of the pinned tree was fixed by /repo 2b9a400 and the model follows the fixed code):
   include/yaclib/async/when/when.hpp   `When` (both forms), `StaticCombinator/DynamicCombinator/SingleCombinator::{Set,SetCore}`
                                        (the registration loop), `CombinatorCallback::Impl`, `Consume/ConsumeImpl`
   include/yaclib/async/when/all.hpp    `All<None>` (everything in the destructor), `All<FirstFail>` (done flag, destructor)
-  include/yaclib/async/when/all_tuple.hpp  `AllTuple<None>`, `AllTuple<FirstFail>` (D2: `.Value()` on a failing Result)
+  include/yaclib/async/when/all_tuple.hpp  `AllTuple<None>`, `AllTuple<FirstFail>` (`else if (result)`: only values are stored)
   include/yaclib/async/when/join.hpp   `Join<None>`, `Join<FirstFail>`
   include/yaclib/async/when/any.hpp    `Any<None>` (flag), `Any<FirstFail>` (empty/error/value + saved error published by the
                                        destructor), `Any<LastFail>` (packed counter `2*count`, low bit = done)
@@ -92,7 +92,7 @@ inductive IPc where
   | dec (store : Bool)    -- about to `_self->DecRef()`; `store`: a plain write of the own Result precedes it
   | dtorRel (j : Nat)     -- dropped the last reference, inside `~All`: about to retire / release core j
   | dtorSet               -- inside the strategy destructor (or `~Promise`): about to publish the output
-  | boom                  -- inside `Consume`: about to throw out of a noexcept function (`.Value()` on a failure)
+  | boom                  -- inside `Consume`: about to throw out of a noexcept function (unreachable since the D2 fix)
   | dboom                 -- inside the strategy destructor: about to throw
   | done
   deriving DecidableEq, Repr
@@ -202,11 +202,10 @@ def afterRetire (st : Strat) (r : Res) : IPc :=
 def consumeStart (st : Strat) (r : Res) : IPc :=
   if st.managed then .retire else afterRetire st r
 
-/-- the flag was already set (seen by the load or returned by the exchange) -/
-def lose (st : Strat) : IPc :=
-  match st with
-  | .allTuple true => .boom      -- D2: the `else` branch runs `std::forward<Result>(result).Value()` on a failure
-  | _ => .dec false
+/-- the flag was already set (seen by the load or returned by the exchange): a failing consumption that lost the race does
+    nothing more.  (Up to /repo 2b9a400 `AllTuple<FirstFail>::Consume` ran `result.Value()` here — defect D2 — and the model
+    had `lose (.allTuple true) = .boom`.) -/
+def lose (_st : Strat) : IPc := .dec false
 
 def finish (s : State) (i : Nat) : State :=
   { s with pc := upd s.pc i .done, busy := if s.busy = some i then none else s.busy }
